@@ -126,7 +126,7 @@ UNDECIDED = {
     'C13': ["the complex matchers (keywords via chomp_any_keyword, string literals, numerals, REM, DATA, identifiers) enter as ASSUMED contracts (decline without moving / consume a non-empty in-line stretch / fail without moving with an in-line position); chomp_keyword and chomp_number are checked against them by Kani for bounded input lengths, the others not at all", "character boundaries, ranges ENDING on a non-blank byte for every token kind, REM/DATA extending to the end of their text, and the re-tokenization clause (tokenizing the text of a range yields that one token) are undecided", "remaining_tokens / remaining_tokens_and_ranges (for-loops over `&mut self` as an iterator) are outside Verus; the ordering lemma is stated for two consecutive next() calls"],
     'C12': ["identifier scanning with keyword lookahead, numerals, DATA items (String::from_utf8, str::parse, trim) and the composition in Tokenizer::next: undecided, including the `DATA \"a\" :` defect"],
     'C06': ["statement-level agreement (assignment / FOR / NEXT / READ kind checks in statement_analyzer.rs vs statement.rs) and the converse direction need both evaluators executed: undecided", "operand parsing below the unary tier (evaluate_parenthesized_expression: terms, calls, array subscripts) is an assumed contract", "termination of the tier loops is not claimed (exec_allows_no_decreases_clause)"],
-    'C08': ["THEN/ELSE interplay: decided as `a resumed INPUT is not left in front of an ELSE` (an ELSE reached as a statement stays UNEXPECTED TOKEN, as the suite requires for multi-statement THEN clauses)", "EXTRA IGNORED / REENTER records are appended by evaluate_input_statement (proved to keep the state well formed) but their exact conditions are not specified here", "reply parsing (parse_data_until_colon) is the DATA item parser: an uninterpreted function of the text"],
+    'C08': ["that a REJECTED reply asks again at the very same INPUT statement (and not at a later INPUT of the line) needs a token-level specification of what an lvalue may contain (no INPUT token): not stated - a change that rewinds from further down the line is not reported", "THEN/ELSE interplay: decided as `a resumed INPUT is not left in front of an ELSE` (an ELSE reached as a statement stays UNEXPECTED TOKEN, as the suite requires for multi-statement THEN clauses)", "EXTRA IGNORED / REENTER records are appended by evaluate_input_statement (proved to keep the state well formed) but their exact conditions are not specified here", "reply parsing (parse_data_until_colon) is the DATA item parser: an uninterpreted function of the text"],
     'C19': ["the page script (abasic-web/ts/main.ts) is TypeScript: its protocol is an assumption, transliterated in L_page_protocol; the start-up loader (start_evaluating per line with no error check in between) violates the adapter's precondition when a line fails - outside this check's reach", "Interpreter::start_evaluating / evaluate_impl contract is assumed (AsRef<str>, Tokenizer)", "output record text (Display) and error text + caret: fmt, undecided"],
     'C07': ["expression evaluation (user-defined function calls included) is proved to hand the call stack back as it found it, on success and on failure (unit expressions, after normalisation N9 of the argument loop's `.enumerate()`); the statement evaluator sees the expression evaluator through an assumed contract that does not yet repeat this clause", "transparency itself (same output / input requests / outcome as the uninterrupted run) is concluded from the per-call facts - break records the location and keeps stack, loops, DATA cursor, functions; CONT restores exactly that; idle transitions keep pending reply and output - not proved as a statement about two runs", "that STOP and the host break both reach Program::break_at_current_location (statement.rs:28, interpreter.rs:115) is read, not proved"],
     'C09': ["the expression evaluator is an assumed contract (a successful expression only moves the cursor forward on its line); user-defined function calls inside expressions are therefore outside the per-call work bound, as the property itself allows", "READ's loop over its variable list and PRINT's loop are not given a termination measure (partial correctness)"],
